@@ -10,6 +10,7 @@ import (
 	"github.com/gr33nbl00d/caddy-revocation-validator/core"
 	"github.com/gr33nbl00d/caddy-revocation-validator/core/asn1parser"
 	"github.com/gr33nbl00d/caddy-revocation-validator/core/utils"
+	"github.com/gr33nbl00d/caddy-revocation-validator/core/verifhook"
 	"github.com/muesli/cache2go"
 	"go.uber.org/zap"
 	"golang.org/x/crypto/ocsp"
@@ -38,6 +39,7 @@ func (c *OCSPRevocationChecker) IsRevoked(clientCertificate *x509.Certificate, v
 	cacheKey := subjectRDNSequence.String() + "_" + clientCertificate.SerialNumber.String()
 	cache, err := c.tryGetResponseFromCache(cacheKey)
 	if err == nil {
+		verifhook.Hit("ocsp.cache.hit", c, cacheKey)
 		return cache, nil
 	} else {
 		c.logger.Debug("certificate not found in cache", zap.String("certificate", clientCertificate.Subject.String()), zap.Error(err))
@@ -80,6 +82,7 @@ func (c *OCSPRevocationChecker) IsRevoked(clientCertificate *x509.Certificate, v
 				}
 			}
 			evictionTime := c.calculateEvictionTime(ocspResponse)
+			verifhook.Hit("ocsp.answer", c, cacheKey, evictionTime)
 			if evictionTime > 0 {
 				c.cache.Add(cacheKey, evictionTime, revocationStatus)
 			}
